@@ -31,10 +31,54 @@ pub struct RunResult {
     pub control_continue: Option<bool>,
 }
 
+/// Counts outcomes carried through the StreamOutcome helper methods (evidence).
+pub static OUTCOME_HELPER_PASSES: std::sync::atomic::AtomicU64 = std::sync::atomic::AtomicU64::new(0);
+
+/// The outcome as a caller sees it who does not read the public fields directly: accessors, and the
+/// value-transforming helpers (`map`, `replace`, `replace_with`), which must carry state and both id
+/// lists through unchanged. Any disagreement with the fields poisons the state (9), so that the C09
+/// state oracle reports it with the run's replay.
+fn through_helpers<T>(o: StreamOutcome<T>) -> (StreamOutcome<T>, bool) {
+    let st = o.state;
+    let p = o.fn_ids_processed.clone();
+    let np = o.fn_ids_not_processed.clone();
+    let mut ok = o.state() == st && o.fn_ids_processed() == &p[..] && o.fn_ids_not_processed() == &np[..];
+    macro_rules! same {
+        ($x:expr) => {
+            $x.state == st && $x.fn_ids_processed == p && $x.fn_ids_not_processed == np
+        };
+    }
+    // map: value wrapped and unwrapped again
+    let o = o.map(|v| (v, 7u8));
+    ok &= same!(o) && o.value().1 == 7;
+    let o = o.map(|(v, _)| v);
+    ok &= same!(o);
+    // replace: park the value, put it back
+    let (o, v) = o.replace(11u16);
+    ok &= same!(o) && *o.value() == 11;
+    let (o, eleven) = o.replace(v);
+    ok &= same!(o) && eleven == 11;
+    // replace_with: extract a marker next to the value
+    let (mut o, marker) = o.replace_with(|v| (v, 13u32));
+    ok &= same!(o) && marker == 13;
+    let _ = o.value_mut();
+    ok &= same!(o);
+    // constructors a caller may use to seed a fold: Default is an un-started outcome, finished_with a
+    // finished one that carries exactly the ids given
+    let d = StreamOutcome::<u8>::default();
+    ok &= d.state == StreamOutcomeState::NotStarted && d.fn_ids_processed.is_empty() && d.fn_ids_not_processed.is_empty() && d.value == 0;
+    let f = StreamOutcome::finished_with(5u8, p.clone());
+    ok &= f.state == StreamOutcomeState::Finished && f.fn_ids_processed == p && f.fn_ids_not_processed.is_empty() && f.into_value() == 5;
+    OUTCOME_HELPER_PASSES.fetch_add(1, std::sync::atomic::Ordering::Relaxed);
+    (o, ok)
+}
+
 fn view<T>(o: StreamOutcome<T>, val: impl FnOnce(T) -> Option<Vec<u32>>) -> OutcomeView {
+    let (o, helpers_ok) = through_helpers(o);
     let StreamOutcome { value, state, fn_ids_processed, fn_ids_not_processed } = o;
     OutcomeView {
         state: match state {
+            _ if !helpers_ok => 9,
             StreamOutcomeState::NotStarted => 0,
             StreamOutcomeState::Interrupted => 1,
             StreamOutcomeState::Finished => 2,
